@@ -56,9 +56,9 @@ Defects0(e) ==
                        /\ (~e.expires[w] /\ (\E c \in DOMAIN e.verdict[w] : e.verdict[w][c] = "deny") => e.outcomes[w][i] = "err")
                 THEN {} ELSE {"outcome contradicts the verdicts"}))
     \cup (IF \A w \in Writes(e) : \A c \in DOMAIN e.presented[w] : e.presented[w][c] = 1 THEN {} ELSE {"write not presented exactly once to every callback"})
-    \* the data is that of the last applied write, or unchanged
-    \cup (IF e.data \in {0} \cup {e.values[w] : w \in {x \in Writes(e) : "ok" \in SetOfSeq(e.outcomes[x])}}
-             /\ ((\E w \in Writes(e) : "ok" \in SetOfSeq(e.outcomes[w])) => e.data # 0)
+    \* the data is that of the last applied write, or unchanged (data0: the data before the writes of this epoch arrived)
+    \cup (IF e.data \in {e.data0} \cup {e.values[w] : w \in {x \in Writes(e) : "ok" \in SetOfSeq(e.outcomes[x])}}
+             /\ ((\E w \in Writes(e) : "ok" \in SetOfSeq(e.outcomes[w])) => e.data # e.data0)
           THEN {} ELSE {"data does not match the applied writes"})
 
 Defects(e) == IF e.disconnect >= 0 THEN DisconnectDefects(e) ELSE Defects0(e)
